@@ -223,11 +223,54 @@ static void cplx_sections(Runner& R, int maxlen)
     }
 }
 
+// extreme magnitudes: squares of these values overflow / underflow the scalar type, denormals, near-max values
+template <typename T> struct Extreme;
+template <> struct Extreme<double> { static constexpr double v[8] = {0, 1, -1e-200, 1e-170, -1e170, 1e200, 4e-320, -1.7e308}; };
+template <> struct Extreme<float> { static constexpr float v[8] = {0, 1, -1e-30f, 1e-25f, -1e25f, 1e30f, 1e-42f, -3e38f}; };
+template <> struct Extreme<long double> { static constexpr long double v[8] = {0, 1, -1e-3000L, 1e-2700L, -1e2700L, 1e3000L, 1e-4940L, -1e4930L}; };
+constexpr double Extreme<double>::v[8];
+constexpr float Extreme<float>::v[8];
+constexpr long double Extreme<long double>::v[8];
+
+template <typename T>
+static void extreme_sections(Runner& R, int maxlen_real, int maxlen_cplx)
+{
+    for (int len = 2; len <= maxlen_real; len++)
+    {
+        std::string sec = std::string("real_") + tn<T>() + "_extreme_len" + num(len);
+        R.run(sec, ipow(8, len), [&, len, sec](uint64_t idx, Local& L) {
+            T vals[8];
+            uint64_t x = idx;
+            for (int i = 0; i < len; i++) { vals[i] = Extreme<T>::v[x % 8]; x /= 8; }
+            real_case<T>(vals, len, sec, idx, L);
+            L.count("distinct_by_construction");
+            L.count("inputs_with_extreme_magnitudes");
+        });
+    }
+    for (int len = 2; len <= maxlen_cplx; len++)
+    {
+        std::string sec = std::string("cplx_") + tn<T>() + "_extreme_len" + num(len);
+        R.run(sec, ipow(8, len), [&, len, sec](uint64_t idx, Local& L) {
+            const T* e = Extreme<T>::v;
+            const std::complex<T> alpha[8] = {{e[0], e[0]}, {e[5], e[0]}, {e[0], e[5]}, {e[4], e[4]}, {e[2], e[0]}, {e[3], e[3]}, {e[1], e[0]}, {e[2], -e[2]}};
+            std::complex<T> vals[8];
+            uint64_t x = idx;
+            for (int i = 0; i < len; i++) { vals[i] = alpha[x % 8]; x /= 8; }
+            cplx_case<T>(vals, len, sec, idx, L);
+            L.count("distinct_by_construction");
+        });
+    }
+}
+
 int main(int argc, char** argv)
 {
     Config cfg = parse_args(argc, argv, 240, 1500);
     Runner R("C18", cfg);
     const bool th = cfg.thorough();
+
+    extreme_sections<double>(R, th ? 6 : 5, th ? 5 : 4);
+    extreme_sections<float>(R, th ? 5 : 4, 4);
+    extreme_sections<long double>(R, th ? 5 : 4, 4);
 
     real_sections<double>(R, 7);
     real_sections<float>(R, th ? 7 : 6);
@@ -238,7 +281,7 @@ int main(int argc, char** argv)
 
     // long vectors over two-letter alphabets: every vector of the length
     static const double PAIRS[3][2] = {{-1, 2}, {-1, 1}, {0, -0.0}};
-    for (int len = 17; len <= (th ? 20 : 18); len++)
+    for (int len = 17; len <= (th ? 20 : 17); len++)
         for (int p = 0; p < 3; p++)
         {
             std::string sec = "long_len" + num(len) + "_pair" + num(p);
@@ -304,7 +347,7 @@ int main(int argc, char** argv)
 
     return R.finish(
         "every vector of length 0..7 over {-2,-1,-0,0,1,2} (real) and length 0..5/7 over {0,+-1,+-i,1+-i,2} (complex) x all nine rules x float/double/long double; "
-        "every vector of length 17..18 (thorough: ..20) over three two-letter alphabets; all 81 (selection,sorting) pairs through SymEigsSolver and GenEigsSolver. "
+        "every vector of length 2..5 over an 8-letter alphabet of extreme magnitudes (squares overflow/underflow, denormals, near-max) per type; every vector of length 17 (thorough: ..20) over three two-letter alphabets; all 81 (selection,sorting) pairs through SymEigsSolver and GenEigsSolver. "
         "Each index is a distinct input; non-trivial = length >= 2",
         {"std::sort/std::abs of libstdc++", "ties may appear in any order (std::sort is unstable): only key monotonicity and multiset equality are required"});
 }
